@@ -24,7 +24,7 @@ ENCODED = ["twisted.python.filepath:FilePath.child", "twisted.python.filepath:Fi
            "twisted.python.filepath:AbstractFilePath.descendant", "twisted.web.static:File.getChild",
            "twisted.web.static:File.createSimilarFile", "twisted.web.server:Request.process",
            "twisted.web.resource:getChildForRequest", "twisted.web.resource:Resource.getChildWithDefault"]
-BOUNDS = {"quick": {"n": 7, "d": 5, "u": 4, "k": 3}, "thorough": {"n": 9, "d": 7, "u": 6, "k": 4}}
+BOUNDS = {"quick": {"n": 7, "d": 5, "u": 4, "k": 3}, "thorough": {"n": 9, "d": 7, "u": 5, "k": 4}}
 B = {}
 BOUNDS_TEXT = ("parent fixed to /r/ab (sibling /r/abc in mind); child/preauthChild name of <= n arbitrary code "
                "points; descendant of <= 2 segments with <= d characters in total; request path '/' + <= u "
@@ -364,15 +364,26 @@ def _menu_shards(tier):
 
 
 _CLS = ["%s < '%%'", "%s == '%%'", "'%%' < %s < '.'", "%s == '.'", "%s == '/'", "%s > '/'"]
+_HEXCLS = ["%s < 'A'", "'A' <= %s < 'a'", "%s >= 'a'"]
 
 
 def _url_shards(tier):
     u = BOUNDS[tier]["u"]
+    top = "len(url) == %d" % u
     out = [("len(url) <= %d" % (u - 2),), ("len(url) == %d" % (u - 1),)]
-    if tier == "quick":
-        out += [("len(url) == %d" % u, c % "url[0]") for c in _CLS]
-    else:
-        out += [("len(url) == %d" % u, c % "url[0]", c2 % "url[1]") for c in _CLS for c2 in _CLS]
+    for c in _CLS:
+        first = c % "url[0]"
+        if first == "url[0] == '%'":
+            # after a '%' the hex-digit decoding multiplies the cases
+            for h in _HEXCLS:
+                if tier == "quick":
+                    out.append((top, first, h % "url[1]"))
+                else:
+                    out += [(top, first, h % "url[1]", h2 % "url[2]") for h2 in _HEXCLS]
+        elif tier == "quick":
+            out.append((top, first))
+        else:
+            out += [(top, first, c2 % "url[1]") for c2 in _CLS]
     return out
 
 
